@@ -402,3 +402,16 @@ def map_remove_key_of_other_type(di: int, ti: int) -> bool:
     d = _Date(1999, 12, 31) if di == 1 else _Date(2020, 1, 1)
     t = _Time(23, 59, 59) if ti == 1 else _Time(10, 0, 0)
     return ev(T['dt_sep'], d=d, t=t) == [1, False, 1]
+
+
+T.update(parse_all({'wild_map': 'let $m := map{"a": ($x, $y), "b": $z, "e": ()} return (count($m?*), sum($m?*), count(map{"e": ()}?*), count($m ! ?*), count(([$x, ($y, $z)], $m)?*))'}))
+
+
+@ob(budget=120, bound='x, y, z unbounded integers: the wildcard lookup ?* on a map (postfix and unary) returns the concatenation of the entry values '
+                      '(sequence values flattened, empty values contribute nothing)',
+    funcs=['elementpath/xpath31/_xpath31_operators.py:LookupOperatorToken.select'])
+def map_wildcard_lookup_flattens_values(x: int, y: int, z: int) -> bool:
+    """
+    post: _
+    """
+    return ev(T['wild_map'], x=x, y=y, z=z) == [3, x + y + z, 0, 3, 6]
